@@ -483,6 +483,9 @@ def cmp_entries(model, impl):
 def evaluate(ops, line, h, d):
     """-> dict(viol=[(key, what)], corr=[(key, what)], content=int, note=str|None, branches=[...])"""
     r = {"viol": [], "corr": [], "content": 0, "note": None, "branches": [], "specified": 0, "unspecified": 0}
+    if h == "not-run":
+        r["note"] = "not-run-after-timeouts"
+        return r
     if h.startswith("crash:"):
         if d == "crash:assert":
             r["note"] = "assert-agreed" if h == "crash:assert" else "model-assert-impl-" + h
@@ -581,38 +584,43 @@ _BIN = None
 _PLAIN = None
 
 
-def run_lines(binary, lines, timeout=60, depth=0):
+def run_lines(binary, lines, timeout=15, budget=None):
     """Run the harness on `lines`; never raises on a misbehaving implementation: a crash (sanitizer, assertion, signal)
-    marks the crashing case `crash:<kind>` and resumes after it, a hang is bisected down to the hanging case
-    (`crash:timeout`), short or garbled output marks the case `crash:garbled`."""
+    marks the crashing case `crash:<kind>` and resumes after it; when a batch hangs its cases are run one by one
+    (5 s each) until three of them have timed out (`crash:timeout`), the rest of the batch is then `not-run`;
+    short or garbled output marks the case `crash:garbled`."""
     import os
     import subprocess
     if not lines:
         return []
+    if budget is None:
+        budget = {"timeouts": 0}
+    if budget["timeouts"] >= 3:
+        return ["not-run"] * len(lines)
     env = dict(os.environ)
     env.setdefault("ASAN_OPTIONS", "detect_leaks=1:abort_on_error=0:halt_on_error=1")
     env.setdefault("UBSAN_OPTIONS", "print_stacktrace=1")
     try:
-        rc, o, e = vlib.sh([str(binary)], inp="\n".join(lines) + "\n", timeout=timeout if len(lines) > 1 else 20, env=env)
+        rc, o, e = vlib.sh([str(binary)], inp="\n".join(lines) + "\n", timeout=timeout if len(lines) > 1 else 5, env=env)
     except subprocess.TimeoutExpired:
         if len(lines) == 1:
+            budget["timeouts"] += 1
             return ["crash:timeout"]
-        mid = len(lines) // 2
-        return run_lines(binary, lines[:mid], timeout, depth + 1) + run_lines(binary, lines[mid:], timeout, depth + 1)
+        return sum((run_lines(binary, [l], timeout, budget) for l in lines), [])
     got = o.split("\n")
     if got and got[-1] == "":
         got.pop()
     if rc == 0 and len(got) == len(lines):
         return got
     if rc == 0:
-        return ["crash:garbled"] * len(lines) if len(lines) == 1 else sum((run_lines(binary, [l], timeout, depth + 1) for l in lines), [])
+        return ["crash:garbled"] if len(lines) == 1 else sum((run_lines(binary, [l], timeout, budget) for l in lines), [])
     if len(got) == len(lines) and "LeakSanitizer" in e:
         return got[:-1] + ["crash:lsan"]
     ncomplete = min(len(got), len(lines) - 1)
     # the last line before a crash may be partial: complete lines end with the END section
     while ncomplete > 0 and " END" not in got[ncomplete - 1] and not got[ncomplete - 1].startswith(("bad-", "throw:")):
         ncomplete -= 1
-    return got[:ncomplete] + [vlib.classify_crash(e, rc)] + run_lines(binary, lines[ncomplete + 1:], timeout, depth + 1)
+    return got[:ncomplete] + [vlib.classify_crash(e, rc)] + run_lines(binary, lines[ncomplete + 1:], timeout, budget)
 
 
 def build_plain():
@@ -1022,7 +1030,7 @@ def run_cases(sets, binary, workers, stop_after=300, plain=None, plain_every=4):
     try:
         for a in it:
             aggs.append(a)
-            bad += len(set(v[2] for v in a["viol"]))
+            bad += len(set(v[2] for v in a["viol"])) + 100 * sum(1 for v in a["viol"] if "crash:timeout" in v[1])
             if bad > stop_after:        # enough failing inputs: a broken tree is reported quickly
                 stopped = True
                 break
